@@ -643,10 +643,10 @@ func runConformanceAssert(rr *RuleRun) {
 	inspectNoLit(fd.Body, func(n ast.Node) bool {
 		if as, ok := n.(*ast.AssignStmt); ok && len(as.Rhs) == 1 {
 			if call, ok := as.Rhs[0].(*ast.CallExpr); ok {
-				if specFieldCall(info, call, "Impl") && len(as.Lhs) == 2 {
+				if specFieldCall(info, call, "Impl") && len(as.Lhs) >= 1 {
 					retVal = objOf(info, as.Lhs[0])
 				}
-				if isCall(info, call, "cty/function.Function.returnTypeForValues") && len(as.Lhs) == 3 {
+				if isCall(info, call, "cty/function.Function.returnTypeForValues") && len(as.Lhs) >= 1 && isCtyType(info.TypeOf(as.Lhs[0])) {
 					expTy = objOf(info, as.Lhs[0])
 				}
 			}
